@@ -145,16 +145,23 @@ def push_value(node: AbbreviationNode, state: IndentWalkState):
                 max_length = l
 
         # Output each line, padded to max length
+        # All lines belong to the same value: number their fields from the same
+        # base and move past the largest index of the whole value afterwards
+        field_base = state.field
+        field_next = field_base
         out.level += 1
         for i, line in enumerate(lines):
             out.push_newline(True)
             if before:
                 out.push(before)
+            state.field = field_base
             push_tokens(line, state)
+            field_next = max(field_next, state.field)
             if after:
                 out.push(' ' * (max_length - line_lengths[i]))
                 out.push(after)
 
+        state.field = field_next
         out.level -= 1
 
 def is_primary_attribute(attr: AbbreviationAttribute):
